@@ -202,6 +202,11 @@ class Verifier:
                 self.undecided.append((label, 'outside the verified subset: %s' % e))
 
     def _verify_post_case(self, c, case, node, module, cls, label):
+        actual = self.dispatch(c.func, case.args)
+        if actual != c.func:
+            node, module, cls, _disp, _real = self.resolve(actual)
+            node._pyvc_module = module
+            self.note_function(actual)
         cfg = self.config_for(c, c.func, {o: dict(lc, mode='invariant') for o, lc in c.loops.items()}, c.kw.get('config'))
         if c.helpers:
             cfg.clause_module = c.helpers
@@ -291,7 +296,25 @@ class Verifier:
                 self.undecided.append((label, 'outside the verified subset: %s' % e))
         c.requires = base_req
 
+    def dispatch(self, fname, argtags):
+        """a contract names a method and types `self` as an instance of some class: what runs is the method that ordinary dispatch finds for
+        that class (the named one, unless the class -- or a class between it and the definer -- overrides it; an override added later is then
+        what the obligation executes)"""
+        fi = self.repo.functions.get(fname)
+        if fi is None or fi.cls is None or fi.kind != 'method' or not fi.node.args.args:
+            return fname
+        tag = (argtags or {}).get(fi.node.args.args[0].arg)
+        if not (isinstance(tag, str) and tag.startswith('inst:')):
+            return fname
+        ci = self.repo.classes.get(tag[5:])
+        if ci is None:
+            return fname
+        m = self.repo.lookup_method(ci, fi.node.name)
+        return m.name if m is not None else fname
+
     def _run_side(self, c, which, fname, argtags, loops, positional):
+        if which == 'impl':
+            fname = self.dispatch(fname, argtags)
         node, module, cls, disp, real = self.resolve(fname)
         node._pyvc_module = module
         if real:
